@@ -17,12 +17,12 @@ inline Hook &hook() { static Hook h; return h; }
 #define rChangeCb if (ga::hook().fn) ga::hook().fn(data.loc)
 
 struct Sub {
-  int si = 0; float sf = 0; bool st = false; int so = 0; char ss[16] = {0}; int sa[4] = {0, 0, 0, 0}; bool on = true; int sj = 0;
+  int si = 0; float sf = 0; bool st = false; int so = 0; char ss[16] = {0}; int sa[8] = {0, 0, 0, 0, 0, 0, 0, 0}; bool on = true; int sj = 0;
   static pt::PortsProxy ports;
 };
 inline pt::PortsProxy Sub::ports;
 struct Root {
-  int preset = 0; int ri = 0, rj = 0; float rf = 0; bool rt = false; int ro = 0; char rc = 0; char rs[16] = {0}; int ra[4] = {0, 0, 0, 0}; float rfa[4] = {0, 0, 0, 0}; bool en = true;
+  int preset = 0; int ri = 0, rj = 0; float rf = 0; bool rt = false; int ro = 0; char rc = 0; char rs[16] = {0}; int ra[8] = {0, 0, 0, 0, 0, 0, 0, 0}; float rfa[4] = {0, 0, 0, 0}; bool en = true;
   Sub sub; Sub *psub = nullptr; Sub subs[3];
 };
 
@@ -48,7 +48,7 @@ inline const char *name_of(int f) {
 inline const char *spec_of(int f) {
   switch (kind_of(f)) {
     case K_INT: return "::i"; case K_FLOAT: return "::f"; case K_BOOL: return "::T:F"; case K_OPT: return "::i:c:S"; case K_CHAR: return "::c";
-    case K_STR: return "::s"; case K_AINT: return "#4::i"; default: return "#4::f";
+    case K_STR: return "::s"; case K_AINT: return "#8::i"; default: return "#4::f";
   }
 }
 
@@ -89,14 +89,16 @@ struct PSpec {
   int mn = 0, mx = 0; bool has_range = false;
   std::vector<std::string> opts;
   int depends_on = -1;             // rDepends(<field>): the application resets this parameter when that one changes
-  // format note: a field id >= 1000 marks records that carry depends_on (older case files do not)
+  int depends_on2 = -1;            // a second port in the same rDepends list
+  // format note: a field id >= 1000 marks records that carry depends_on, >= 2000 also depends_on2 (older case files do not)
   template <class A> void io(A &a) {
-    int f = field + 1000;
+    int f = field + 2000;
     a(f);
-    bool ext = f >= 1000;
-    field = ext ? f - 1000 : f;
+    bool ext = f >= 1000, ext2 = f >= 2000;
+    field = f % 1000;
     a(has_default)(depends)(dflt)(has_preset)(mn)(mx)(has_range)(opts);
     if (ext) a(depends_on); else depends_on = -1;
+    if (ext2) a(depends_on2); else depends_on2 = -1;
   }
   const Val &default_for(int preset) const {
     if (depends && preset >= 0 && preset < 3 && has_preset[(size_t)preset]) return dflt[(size_t)preset + 1];
@@ -116,7 +118,7 @@ struct AppSpec {
     auto one = [&](const PSpec &p) {
       std::string s = std::string(name_of(p.field)) + spec_of(p.field);
       if (p.has_range) s += "[" + std::to_string(p.mn) + ".." + std::to_string(p.mx) + "]";
-      if (p.depends_on >= 0) s += std::string("(depends ") + name_of(p.depends_on) + ")";
+      if (p.depends_on >= 0) s += std::string("(depends ") + name_of(p.depends_on) + (p.depends_on2 >= 0 ? std::string(",") + name_of(p.depends_on2) : std::string()) + ")";
       if (!p.has_default) s += "(no default)";
       else { s += "=" + p.dflt[0].show(kind_of(p.field)); if (p.depends) for (int k = 0; k < 3; k++) if (p.has_preset[(size_t)k]) s += "|p" + std::to_string(k) + "=" + p.dflt[(size_t)k + 1].show(kind_of(p.field)); }
       return s + " ";
@@ -154,7 +156,7 @@ inline std::string spell(const Val &v, const PSpec &p) {
     case K_STR: return pretty_str(v.s);
     case K_AINT: {
       bool all = true; for (auto x : v.ai) if (x != v.ai[0]) all = false;
-      if (all) return "[4x" + std::to_string(v.ai[0]) + "]";
+      if (all) return "[" + std::to_string(v.ai.size()) + "x" + std::to_string(v.ai[0]) + "]";
       std::string o = "["; for (size_t k = 0; k < v.ai.size(); k++) o += (k ? " " : "") + std::to_string(v.ai[k]); return o + "]";
     }
     default: { std::string o = "["; for (size_t k = 0; k < v.af.size(); k++) { snprintf(b, sizeof b, "%s%.3f", k ? " " : "", v.af[k]); o += b; } return o + "]"; }
@@ -174,7 +176,7 @@ inline std::string meta_of(const PSpec &p) {
     }
     map("default", spell(p.dflt[0], p));
   }
-  if (p.depends_on >= 0) map("depends", std::string(name_of(p.depends_on)) + ",");
+  if (p.depends_on >= 0) map("depends", std::string(name_of(p.depends_on)) + "," + (p.depends_on2 >= 0 ? std::string(name_of(p.depends_on2)) + "," : std::string()));
   map("documentation", "generated");
   return m;
 }
@@ -221,7 +223,7 @@ inline Val get_root(const Root &r, int f) {
   Val v;
   switch (f) {
     case PRESET: v.i = r.preset; break; case RI: v.i = r.ri; break; case RJ: v.i = r.rj; break; case RF: v.f = r.rf; break; case RT: v.i = r.rt; break; case RO: v.i = r.ro; break;
-    case RC: v.i = r.rc; break; case RS: v.s = r.rs; break; case RA: v.ai.assign(r.ra, r.ra + 4); break; case RFA: v.af.assign(r.rfa, r.rfa + 4); break; case EN: v.i = r.en; break;
+    case RC: v.i = r.rc; break; case RS: v.s = r.rs; break; case RA: v.ai.assign(r.ra, r.ra + 8); break; case RFA: v.af.assign(r.rfa, r.rfa + 4); break; case EN: v.i = r.en; break;
   }
   return v;
 }
@@ -229,14 +231,14 @@ inline void set_root(Root &r, int f, const Val &v) {
   switch (f) {
     case PRESET: r.preset = (int)v.i; break; case RI: r.ri = (int)v.i; break; case RJ: r.rj = (int)v.i; break; case RF: r.rf = (float)v.f; break; case RT: r.rt = v.i != 0; break; case RO: r.ro = (int)v.i; break;
     case RC: r.rc = (char)v.i; break; case RS: memset(r.rs, 0, 16); memcpy(r.rs, v.s.data(), std::min<size_t>(15, v.s.size())); break;
-    case RA: for (int k = 0; k < 4; k++) r.ra[k] = (int)v.ai[(size_t)k]; break; case RFA: for (int k = 0; k < 4; k++) r.rfa[k] = (float)v.af[(size_t)k]; break; case EN: r.en = v.i != 0; break;
+    case RA: for (size_t k = 0; k < 8; k++) r.ra[k] = k < v.ai.size() ? (int)v.ai[k] : 0; break; case RFA: for (int k = 0; k < 4; k++) r.rfa[k] = (float)v.af[(size_t)k]; break; case EN: r.en = v.i != 0; break;
   }
 }
 inline Val get_sub(const Sub &s, int f) {
   Val v;
   switch (f) {
     case SI: v.i = s.si; break; case SJ: v.i = s.sj; break; case SF: v.f = s.sf; break; case ST: v.i = s.st; break; case SO: v.i = s.so; break; case SS: v.s = s.ss; break;
-    case SA: v.ai.assign(s.sa, s.sa + 4); break; default: v.i = s.on; break;
+    case SA: v.ai.assign(s.sa, s.sa + 8); break; default: v.i = s.on; break;
   }
   return v;
 }
@@ -244,7 +246,7 @@ inline void set_sub(Sub &s, int f, const Val &v) {
   switch (f) {
     case SI: s.si = (int)v.i; break; case SJ: s.sj = (int)v.i; break; case SF: s.sf = (float)v.f; break; case ST: s.st = v.i != 0; break; case SO: s.so = (int)v.i; break;
     case SS: memset(s.ss, 0, 16); memcpy(s.ss, v.s.data(), std::min<size_t>(15, v.s.size())); break;
-    case SA: for (int k = 0; k < 4; k++) s.sa[k] = (int)v.ai[(size_t)k]; break; default: s.on = v.i != 0; break;
+    case SA: for (size_t k = 0; k < 8; k++) s.sa[k] = k < v.ai.size() ? (int)v.ai[k] : 0; break; default: s.on = v.i != 0; break;
   }
 }
 
@@ -264,6 +266,11 @@ struct App {
   }
   static std::string en_by(const char *who) { return std::string(":enabled by") + std::string(1, '\0') + "=" + who + std::string(1, '\0'); }
   explicit App(const AppSpec &s) : spec(s) {
+    // case files written when the int arrays had 4 elements: extend their defaults to 8 by repeating the last one
+    for (auto *v : {&spec.root, &spec.sub})
+      for (auto &p : *v)
+        if (kind_of(p.field) == K_AINT)
+          for (auto &d : p.dflt) while (!d.ai.empty() && d.ai.size() < 8) d.ai.push_back(d.ai.back());
     names.reserve(64);
     std::vector<rtosc::Port> sv, rv;
     for (auto &p : spec.sub) { names.push_back(std::string(name_of(p.field)) + spec_of(p.field)); sv.push_back(rtosc::Port{names.back().c_str(), add_block(meta_of(p)), nullptr, field_cb(p.field)}); }
@@ -300,6 +307,8 @@ struct App {
       for (auto &p : spec.root) if (p.has_default && p.depends) { set_root(root, p.field, p.default_for(root.preset)); if (p.field == RI) ri_changed = true; }
     if (ri_changed)
       for (auto &p : spec.root) if (p.has_default && p.depends_on == RI) set_root(root, p.field, p.default_for(root.preset));
+    if (!strcmp(loc, "/rt"))
+      for (auto &p : spec.root) if (p.has_default && p.depends_on2 == RT) set_root(root, p.field, p.default_for(root.preset));
   }
   void dispatch(const std::string &msg) {
     attach();
@@ -333,7 +342,20 @@ inline Val gen_val(int f, const PSpec &p) {
       for (int k = 0; k < n; k++) v.s += vf::chance(70) ? (char)vf::pick<int>('a', 'z') : AL[(size_t)vf::pickn((int)AL.size())];
       break;
     }
-    case K_AINT: { int base = p.has_range ? vf::pick<int>(p.mn, p.mx) : vf::pick<int>(-5, 5); for (int k = 0; k < 4; k++) v.ai.push_back(vf::chance(50) ? base : (p.has_range ? vf::pick<int>(p.mn, p.mx) : vf::pick<int>(-100, 100))); break; }
+    case K_AINT: {
+      // 8 elements: long constant runs and arithmetic progressions are frequent (they are saved as compressed ranges)
+      int lo = p.has_range ? p.mn : -100, hi = p.has_range ? p.mx : 100;
+      int base = vf::pick<int>(lo, hi), style = vf::pickn(4);
+      for (int k = 0; k < 8; k++) {
+        int x;
+        if (style == 0) x = base;
+        else if (style == 1) x = vf::chance(80) ? base : vf::pick<int>(lo, hi);
+        else if (style == 2) { x = base + k; if (x > hi) x = hi; }
+        else x = vf::pick<int>(lo, hi);
+        v.ai.push_back(x);
+      }
+      break;
+    }
     default: for (int k = 0; k < 4; k++) v.af.push_back((double)vf::pick<int>(-40, 40) / 4.0); break;
   }
   return v;
@@ -377,8 +399,11 @@ inline AppSpec gen_spec() {
   s.self_on = vf::chance(35);
   if (s.self_on) { PSpec p; p.field = ON; p.has_default = true; p.has_preset.assign(3, 0); Val d; d.i = vf::chance(75); p.dflt.assign(4, d); s.sub.insert(s.sub.begin() + vf::pickn((int)s.sub.size() + 1), p); }
   s.ptr_port = s.has_sub && vf::chance(40);
-  { bool has_ri = false; for (auto &p : s.root) if (p.field == RI) has_ri = true;
-    for (auto &p : s.root) if (p.field == RJ && has_ri && vf::chance(60)) p.depends_on = RI; }
+  { bool has_ri = false, has_rt = false;
+    for (auto &p : s.root) { if (p.field == RI) has_ri = true; if (p.field == RT) has_rt = true; }
+    // several parameters may declare rDepends(ri[, rt]): ri in turn may depend on the preset, rt on nothing
+    for (auto &p : s.root)
+      if (has_ri && p.field != RI && p.field != PRESET && p.field != RT && p.field != EN && vf::chance(p.field == RJ ? 60 : 25)) { p.depends_on = RI; if (has_rt && vf::chance(50)) p.depends_on2 = RT; } }
   // random order of the root parameter ports (the preset port may come after its dependants)
   for (size_t i = s.root.size(); i > 1; i--) std::swap(s.root[i - 1], s.root[(size_t)vf::pickn((int)i)]);
   return s;
@@ -428,7 +453,7 @@ inline std::vector<Set> gen_history(const AppSpec &spec, int maxlen) {
     const PSpec &p = ps[(size_t)vf::pickn((int)ps.size())];
     s.field = p.field;
     s.v = vf::chance(25) && p.has_default ? p.dflt[(size_t)vf::pickn(4)] : gen_val(p.field, p);   // sometimes exactly a default
-    if (kind_of(p.field) == K_AINT || kind_of(p.field) == K_AFLOAT) s.idx = vf::pickn(4);
+    if (kind_of(p.field) == K_AINT || kind_of(p.field) == K_AFLOAT) s.idx = vf::pickn(kind_of(p.field) == K_AINT ? 8 : 4);
     s.by_symbol = vf::coin();
     h.push_back(s);
   }
@@ -440,9 +465,11 @@ inline void model_apply(App &m, const Set &s) {
     Val cur = get_root(m.root, s.field);
     if (s.idx >= 0) { if (kind_of(s.field) == K_AINT) cur.ai[(size_t)s.idx] = s.v.ai[(size_t)s.idx]; else cur.af[(size_t)s.idx] = s.v.af[(size_t)s.idx]; }
     else cur = s.v;
+    bool rt_changes = s.field == RT && get_root(m.root, RT).i != cur.i;
     set_root(m.root, s.field, cur);
     if (s.field == PRESET) m.on_changed("/preset");
     if (s.field == RI) m.on_changed("/ri");
+    if (rt_changes) m.on_changed("/rt");
   } else {
     Sub *sub = s.target == 1 ? &m.root.sub : s.target == 2 ? m.root.psub : &m.root.subs[s.target - 3];
     if (!sub) return;
